@@ -97,14 +97,33 @@ func ZZ_C02_rounds() {
 	if newExists {
 		c.ERS = append(c.ERS, mkRS("B", "foo-b"))
 	}
+	// node0 may carry a resources override annotation that changes nothing for the pod (it names a
+	// container the template does not have, or is not decodable): the pod created there must still be
+	// recognised as up to date, or the node flaps for ever
+	node0Ann := nondet.String("node0.overrideAnnotation", "none", "other-container", "malformed")
 	for i := 0; i < nNodes; i++ {
-		c.Nodes = append(c.Nodes, &corev1.Node{ObjectMeta: metav1.ObjectMeta{Name: zzNodeName(i), Labels: map[string]string{}}})
+		node := &corev1.Node{ObjectMeta: metav1.ObjectMeta{Name: zzNodeName(i), Labels: map[string]string{}, Annotations: map[string]string{}}}
+		if i == 0 {
+			prefix := "resources.extendeddaemonset.datadoghq.com/" + zzNS + "." + zzEDSName + "."
+			switch node0Ann {
+			case "other-container":
+				node.Annotations[prefix+"sidecar"] = `{"requests":{"cpu":"200m"}}`
+			case "malformed":
+				node.Annotations[prefix+"agent"] = `{"requests":`
+			}
+		}
+		c.Nodes = append(c.Nodes, node)
 		switch nondet.String("node"+strconv.Itoa(i)+".pod", "none", "old", "new") {
 		case "old":
 			c.Pods = append(c.Pods, zzPod("old-"+zzNodeName(i), zzNodeName(i), "foo-a", hash("A"), 0, corev1.PodRunning, true, nondet.Base().Add(-time.Hour)))
 		case "new":
 			if newExists {
-				c.Pods = append(c.Pods, zzPod("new-"+zzNodeName(i), zzNodeName(i), "foo-b", hash("B"), 0, corev1.PodRunning, true, nondet.Base().Add(-time.Hour)))
+				p := zzPod("new-"+zzNodeName(i), zzNodeName(i), "foo-b", hash("B"), 0, corev1.PodRunning, true, nondet.Base().Add(-time.Hour))
+				// as stamped by the controller when it created the pod on a node carrying override annotations
+				if h := comparison.GenerateHashFromEDSResourceNodeAnnotation(zzNS, zzEDSName, node.Annotations); h != "" {
+					p.Annotations[datadoghqv1alpha1.MD5NodeExtendedDaemonSetAnnotationKey] = h
+				}
+				c.Pods = append(c.Pods, p)
 			}
 		}
 	}
